@@ -210,6 +210,11 @@ class Unit:
         edits = []
         for k, spec in sorted(loops.items()):
             if k >= len(loop_idx):
+                if not loop_idx:
+                    # the function has become loop-free: nothing to attach the invariant to, and a loop-free body
+                    # needs no invariant -- Verus decides it as it stands
+                    fired.append(("W-inv skipped (function is loop-free now)", 1, spec["prefix"]))
+                    continue
                 raise LostAnchor("loop #%d not found (function has %d loops)" % (k, len(loop_idx)))
             i = loop_idx[k]
             pre = texts(tokenize(spec["prefix"]))
